@@ -234,7 +234,11 @@ def c08_exec(plan):
                 x, y = (other, H[i]) if left_int else (H[i], other)
                 dst = i if op == "aug" else s["dst"]
                 ev["a"] = {"h": i, "operator": o, "other": od, "left_int": left_int, "dst": dst}
-                if o == "+":
+                if op == "aug":
+                    # 'x op= y' exactly as Python executes it (uses __iadd__ & co. if the class has them)
+                    import operator as _op
+                    r = {"+": _op.iadd, "-": _op.isub, "&": _op.iand, "|": _op.ior, "^": _op.ixor}[o](x, y)
+                elif o == "+":
                     r = x + y
                 elif o == "-":
                     r = x - y
